@@ -120,10 +120,16 @@ func (r *region[R]) shouldBeInControl(candidate *Gate[R]) bool {
 // controller.remove to maintain consistent lock ordering (controller.mu before
 // region.RWMutex), preventing AB-BA deadlocks with OpenGate.
 func (r *region[R]) release(g *Gate[R]) (res R, transfer Transfer) {
+	// Hold the controller lock for the whole release (same order as OpenGate:
+	// controller, then region). Releasing the last gate and removing the region must be
+	// one step: otherwise a gate opened in between joins a region whose resource the
+	// releasing caller is about to close, and ends up writing to a closed resource.
+	r.controller.mu.Lock()
+	defer r.controller.mu.Unlock()
 	r.Lock()
+	defer r.Unlock()
 	r.gates.Remove(g)
 	if r.curr != g {
-		r.Unlock()
 		return res, transfer
 	}
 	r.curr = nil
@@ -134,11 +140,9 @@ func (r *region[R]) release(g *Gate[R]) (res R, transfer Transfer) {
 			transfer.To = candidate.state()
 		}
 	}
-	shouldRemove := transfer.IsRelease()
 	res = r.resource
-	r.Unlock()
-	if shouldRemove {
-		r.controller.remove(r)
+	if transfer.IsRelease() {
+		r.controller.unsafeRemove(r)
 	}
 	return res, transfer
 }
